@@ -2,11 +2,15 @@
    The statement as an executable predicate over (input, observation of the
    implementation) and as a readable Prop.  It is written per SINK and per CALL:
    what a leaf of the decorator tree newly logs at a call is a function of the
-   decorators on the path from the root to that leaf and of the call alone - pure
-   values, no store, no references. *)
+   decorators on the path from the root to that leaf and of the call alone, the
+   tags argument taken BY VALUE at the time of the call - no memory of earlier calls
+   or runs, no dependence on which object the caller passes or on what becomes of it. *)
 From TT Require Import Lib.Base Model.Router Model.StreamDecor Gen.Failfast.
 
-(* a decorator tree, the caller's own mutable tag sets, and what the caller does *)
+(* a decorator tree, the caller's own mutable tag sets, and what the caller does: any sequence of
+   startTestRun / stopTestRun / status calls on the root (several runs, repeated stops, calls outside
+   a run) and of in-place changes to its own sets; a status call names the tag OBJECT it passes
+   (TLoc l: the caller's l-th set, the same object whenever l recurs; TFrozen; TNone) *)
 Record input := { tree : node; caller : store; ops : list op }.
 
 Definition otags := option (list tag).          (* test_tags as a value: None or the set *)
